@@ -315,6 +315,7 @@ def run_case(case, R):
         how = 'name'; R.label('origin-block:given(single-layer column present)')
     if how == 'name': kw['origin_block'] = ob_name
     elif how == 'object': kw['origin_block'] = grid.block[ob_name]
+    b0, k0 = grid_signature(grid, skip=set(bnames))         # "the original grid": as it was handed to rectgeo
     try:
         with R.lib('rectgeo'):
             g2, bm = grid.rectgeo(**kw)
@@ -440,7 +441,6 @@ def run_case(case, R):
     R.check(set(bm) <= set(g2.block_name_list), 'blockmap:key-not-a-geometry-block', 'keys outside the geometry')
     with R.lib('fromgeo2'):
         grid3 = t2grids.t2grid().fromgeo(g2, dict(bm))
-    b0, k0 = grid_signature(grid, skip=set(bnames))
     b1, k1 = grid_signature(grid3)
     if not R.check(set(b0) == set(b1), 'regen:block-names', lambda: 'regenerated grid: missing %r extra %r' % (
             sorted(set(b0) - set(b1))[:5], sorted(set(b1) - set(b0))[:5])): return
